@@ -40,14 +40,22 @@ G_EPS = {"<start>": ["<list>"], "<list>": ["", "<item><list>"], "<item>": ["a", 
 G_ROWS = {"<start>": ["<rows>"], "<rows>": ["<row>", "<row>;<rows>"], "<row>": ["<field>", "<field>,<row>"],
           "<field>": ["a", "b"]}
 G_D34 = {"<start>": ["<d>"], "<d>": ["3", "4"]}
+# nested list-like structures (two count atoms over an outer and an inner tree)
+G_DOC = {"<start>": ["<doc>"], "<doc>": ["<header>;<body>"], "<header>": ["<hitems>"],
+         "<hitems>": ["<h>", "<h><hitems>"], "<h>": ["h"], "<body>": ["<bitems>"],
+         "<bitems>": ["<b>", "<b><bitems>"], "<b>": ["b"]}
+# nested elements id(content)id: match expressions reaching two derivation levels deep
+G_ELEM = {"<start>": ["<doc>"], "<doc>": ["<elem>"], "<elem>": ["<open><content><close>"], "<open>": ["<id>("],
+          "<close>": [")<id>"], "<content>": ["<elem>", "<text>"], "<id>": ["a", "b", "c", "d"], "<text>": ["x", "y"]}
 GRAMMARS = {"assgn": G_ASSGN, "num": G_NUM, "lrec": G_LREC, "block": G_BLOCK, "eps": G_EPS, "rows": G_ROWS,
-            "d34": G_D34}
+            "doc": G_DOC, "elem": G_ELEM, "d34": G_D34}
 PROBE_ONLY = {"d34"}     # used by fixed probes only (the generated stream does not draw from it)
 # nonterminals deriving only numerals (str.to.int may be applied to these, as the spec requires)
-NUMERIC = {"assgn": ["<digit>"], "num": ["<num>", "<digit>"], "lrec": [], "block": [], "eps": ["<n>"], "rows": []}
+NUMERIC = {"assgn": ["<digit>"], "num": ["<num>", "<digit>"], "lrec": [], "block": [], "eps": ["<n>"], "rows": [], "doc": [], "elem": []}
 # alternative start symbols (start_symbol=...)
 ALT_START = {"assgn": ["<stmt>", "<assgn>"], "num": ["<pair>", "<num>"], "lrec": ["<as>"], "block": ["<block>", "<items>"],
-             "eps": ["<list>"], "rows": ["<rows>", "<row>"]}
+             "eps": ["<list>"], "rows": ["<rows>", "<row>"], "doc": ["<doc>", "<header>"],
+             "elem": ["<elem>", "<elem>", "<doc>"]}
 # literals per nonterminal (mostly derivable, some not)
 LITS = {
     "assgn": {"<var>": ["a", "b", "c", "d"], "<rhs>": ["a", "1", "c", "2"], "<digit>": ["0", "1", "2", "7"],
@@ -58,6 +66,10 @@ LITS = {
               "<block>": ["(p)", "(pq)", "((q))"]},
     "eps": {"<item>": ["a", "b", "7", "42"], "<n>": ["7", "42", "8"], "<list>": ["", "a", "ab", "a7"]},
     "rows": {"<field>": ["a", "b", "c"], "<row>": ["a", "a,b", "b,b,a"], "<rows>": ["a", "a;b", "a,b;b"]},
+    "doc": {"<hitems>": ["h", "hh", "hhh"], "<bitems>": ["b", "bb"], "<header>": ["h", "hh"], "<body>": ["b", "bbb"],
+            "<doc>": ["h;b", "hh;bb"]},
+    "elem": {"<id>": ["a", "b", "d", "e"], "<text>": ["x", "y", "z"], "<content>": ["x", "a(y)a"],
+             "<elem>": ["a(x)a", "b(a(y)a)b"], "<open>": ["a(", "c("], "<close>": [")a", ")d"]},
 }
 MEXPRS = {
     "assgn": [("<assgn>", [("bind", "l", "<var>"), "=", ("bind", "r", "<rhs>")]),
@@ -77,7 +89,16 @@ MEXPRS = {
             ("<item>", [("bind", "k", "<n>")])],
     "rows": [("<row>", [("bind", "f", "<field>"), ",", ("bind", "r", "<row>")]),
              ("<rows>", [("bind", "h", "<row>"), ";", ("bind", "t", "<rows>")])],
+    "doc": [("<doc>", [("bind", "hd", "<header>"), ";", ("bind", "bd", "<body>")]),
+            ("<hitems>", [("bind", "x", "<h>"), ("bind", "r", "<hitems>")])],
+    # two levels deep: <elem> -> <open> -> <id> "(" ... ")" <id> <- <close>
+    "elem": [("<elem>", [("bind", "o", "<id>"), "(", "<content>", ")", ("bind", "c", "<id>")]),
+             ("<elem>", [("bind", "o", "<id>"), "(", ("bind", "m", "<content>"), ")", "<id>"]),
+             ("<elem>", [("bind", "p", "<open>"), ("bind", "m", "<content>"), ("bind", "q", "<close>")])],
 }
+# match expressions that reach two derivation levels deep in the older grammars
+MEXPRS["assgn"].append(("<stmt>", [("bind", "l", "<var>"), "=", ("bind", "r", "<rhs>")]))
+MEXPRS["block"].append(("<block>", ["(", ("bind", "h", "<item>"), ("bind", "r", "<items>"), ")"]))
 PRED2 = ["before", "after", "inside", "same_position", "different_position", "direct_child", "consecutive"]
 OPS = ["EQ", "GE", "LE", "GT", "LT"]
 CMPS = [("CEq", "="), ("CLt", "<"), ("CLe", "<="), ("CGt", ">"), ("CGe", ">=")]
@@ -675,6 +696,47 @@ def gen_exists_and(rng, gname, g, root_type, counter):
     return ("and", parts)
 
 
+# (outer type, needle counted in it, inner type, needle counted in it)
+NESTED = {"doc": [("<doc>", "<b>", "<header>", "<h>"), ("<doc>", "<h>", "<body>", "<b>"), ("<doc>", "<b>", "<hitems>", "<h>")],
+          "rows": [("<rows>", "<row>", "<row>", "<field>"), ("<rows>", "<field>", "<row>", "<field>")],
+          "block": [("<block>", "<id>", "<items>", "<item>")],
+          "eps": [("<list>", "<item>", "<list>", "<n>")]}
+
+
+def gen_nested_counts(rng, gname, root_type, g):
+    S = ("start", root_type)
+    outer_t, n1, inner_t, n2 = rng.choice(NESTED[gname])
+    if outer_t not in g or inner_t not in g:
+        outer_t, n1, inner_t, n2 = NESTED[gname][0]
+    o, i = ("o1", outer_t), ("i2", inner_t)
+    parts = [("count", o, n1, str(rng.randint(1, 3))),
+             ("forall", i, o, None, ("count", i, n2, str(rng.randint(1, 3))))]
+    rng.shuffle(parts)
+    return ("forall", o, S, None, ("and", parts))
+
+
+def gen_root_mexpr(rng, gname, ty, elems, counter):
+    S = ("start", ty)
+    counter[0] += 1
+    sfx = str(counter[0])
+    elems2, bound = [], []
+    for e in elems:
+        if isinstance(e, tuple):
+            elems2.append(("bind", e[1] + sfx, e[2]))
+            bound.append((e[1] + sfx, e[2]))
+        else:
+            elems2.append(e)
+    v = rng.choice(bound)
+    same = [w for w in bound if w != v and w[1] == v[1]]
+    if same and rng.random() < 0.6:
+        body = ("streq", rng.random() < 0.25, ("var", v), ("var", rng.choice(same)))
+    else:
+        lits = (LITS[gname].get(v[1]) or ["x"])[:3]
+        body = ("streq", rng.random() < 0.25, ("var", v), ("lit", rng.choice(lits)))
+    kind = "forall" if rng.random() < 0.8 else "exists"
+    return (kind, ("m" + sfx, ty), S, elems2, body)
+
+
 def gen_instance(rng, idx, budget, max_solutions):
     gname = rng.choice([x for x in GRAMMARS if x not in PROBE_ONLY])
     g = GRAMMARS[gname]
@@ -690,6 +752,19 @@ def gen_instance(rng, idx, budget, max_solutions):
         # conjunction of a tree-existential with a universal / SMT conjunct over derivable literals
         # (the shape for which the nested unsat check of activate_unsat_support solves a sub-problem)
         ast = gen_exists_and(rng, gname, geff, root_type, counter)
+    tmpl = rng.random()
+    if tmpl < 0.08 and gname in NESTED:
+        # two positive count atoms over NESTED quantified trees under universal quantifiers
+        ast = gen_nested_counts(rng, gname, root_type, geff)
+    elif tmpl < 0.18:
+        # the requested start symbol IS the quantified type and the match expression reaches below it:
+        # the root of the solution has to be matched itself
+        cands = [m for m in MEXPRS[gname] if m[0] in GRAMMARS[gname] and m[0] != "<start>"]
+        if cands:
+            ty, elems = rng.choice(cands)
+            start_symbol, root_type = ty, ty
+            geff = effective_grammar(gname, start_symbol)
+            ast = gen_root_mexpr(rng, gname, ty, elems, counter)
     settings = {"free": rng.choice([1, 2, 5, 10]), "smt": rng.choice([1, 2, 5, 10]),
                 "opt": rng.random() < 0.5, "unique": rng.random() < 0.5,
                 "methods": rng.choice([0, 1, 2, 3, 4, 5, 6, 7, 7, 7]), "start_symbol": start_symbol,
@@ -788,6 +863,49 @@ def probe_instances(budget, max_solutions):
                         "settings": {"free": free, "smt": free, "opt": True, "unique": True, "methods": 7,
                                      "start_symbol": None, "unsat": False},
                         "seed": 3000 + j, "budget": budget * 3, "max_solutions": 20})
+    # two positive count atoms over NESTED trees under universal quantifiers (both become ready in one
+    # step of eliminate_all_ready_semantic_predicate_formulas; substitutions must be propagated)
+    dc, hd, bd, hi = ("d", "<doc>"), ("hd", "<header>"), ("bd", "<body>"), ("hi", "<hitems>")
+    rws, rw1 = ("rs", "<rows>"), ("rw", "<row>")
+    nest_probes = [
+        ("doc", ("forall", dc, S, None, ("and", [("count", dc, "<b>", "3"),
+                                                 ("forall", hd, dc, None, ("count", hd, "<h>", "2"))]))),
+        ("doc", ("forall", dc, S, None, ("and", [("forall", bd, dc, None, ("count", bd, "<b>", "2")),
+                                                 ("count", dc, "<h>", "3")]))),
+        ("doc", ("forall", dc, S, None, ("and", [("count", dc, "<b>", "1"),
+                                                 ("forall", hi, dc, None, ("count", hi, "<h>", "1"))]))),
+        ("doc", ("and", [("forall", dc, S, None, ("count", dc, "<b>", "2")),
+                         ("forall", hd, S, None, ("count", hd, "<h>", "3"))])),
+    ]
+    for j, (gname, ast) in enumerate(nest_probes):
+        for free in (5, 1):
+            out.append({"idx": f"c{j}.{free}", "gname": gname, "ast": ast, "how": "concrete" if j % 2 else "direct",
+                        "settings": {"free": free, "smt": 5, "opt": True, "unique": free == 5, "methods": 7,
+                                     "start_symbol": None, "unsat": False},
+                        "seed": 5000 + j, "budget": budget * 2, "max_solutions": 20})
+    # requested start symbol = quantified type, match expression two derivation levels deep: the ROOT
+    # of the solution has to be matched (formula built directly: the constant is typed with the start symbol)
+    el, st1 = ("e", "<elem>"), ("s", "<stmt>")
+    root_probes = [
+        ("elem", "<elem>", ("forall", el, ("start", "<elem>"),
+                            [("bind", "o", "<id>"), "(", "<content>", ")", ("bind", "c", "<id>")],
+                            ("streq", False, ("var", ("o", "<id>")), ("var", ("c", "<id>"))))),
+        ("elem", "<elem>", ("forall", el, ("start", "<elem>"),
+                            [("bind", "o", "<id>"), "(", "<content>", ")", "<id>"],
+                            ("streq", False, ("var", ("o", "<id>")), ("lit", "b")))),
+        ("elem", "<doc>", ("forall", el, ("start", "<doc>"),
+                           [("bind", "o", "<id>"), "(", "<content>", ")", ("bind", "c", "<id>")],
+                           ("streq", False, ("var", ("o", "<id>")), ("var", ("c", "<id>"))))),
+        ("assgn", "<stmt>", ("forall", st1, ("start", "<stmt>"),
+                             [("bind", "l", "<var>"), "=", ("bind", "r", "<rhs>")],
+                             ("streq", False, ("var", ("l", "<var>")), ("lit", "a")))),
+    ]
+    for j, (gname, ssym, ast) in enumerate(root_probes):
+        for how in (("direct", "concrete") if j == 0 else ("direct",)):
+            out.append({"idx": f"r{j}.{how}", "gname": gname, "ast": ast, "how": how,
+                        "settings": {"free": 5, "smt": 5, "opt": True, "unique": True, "methods": 7,
+                                     "start_symbol": ssym, "unsat": False},
+                        "seed": 6000 + j, "budget": budget * 2, "max_solutions": 20})
     # numeric quantifiers (outside satb: the constraint is judged by spec_sem.py, numerals < tree size + 3)
     dd, rr = ("x", "<d>"), ("r", "<rows>")
     ivar = lambda n: ("var", (n, "NUM"))
@@ -1235,7 +1353,9 @@ def run(run):
     nproc = max(2, min(lib.NPROC, (os.cpu_count() or 4)) - 2)
     run.cov["rule"] = (
         "solver instances = (grammar in {assignment language, numeral pairs, left-recursive list, nested blocks, "
-        "epsilon list, rows of fields}, constraint generated AST-first: 1-2 tree quantifiers (forall/exists, in start or an outer "
+        "epsilon list, rows of fields, header/body documents, nested elements id(content)id}, templates "
+        "(8% two count atoms over nested quantified trees under universal quantifiers; 10% requested start "
+        "symbol = quantified type with a match expression reaching below it), constraint generated AST-first: 1-2 tree quantifiers (forall/exists, in start or an outer "
         "variable, 30% with a match expression incl. optional parts) over reachable nonterminals, conjunction/"
         "disjunction/negation of quantified formulas, bodies = not/and/or (n-ary) over string (in)equality var/"
         "literal and var/var, str.len and str.to.int comparisons (str.to.int only on numeral-deriving "
@@ -1247,7 +1367,8 @@ def run(run):
         "created nodes, activate_unsat_support=True on conjunctions of a tree-existential with a universal/SMT "
         "conjunct (limits 2-3; also 25% of the generated instances, 70% of the generated exists-and-forall "
         "conjunctions), negated count under universal quantifiers on list-like grammars (targets 1-4, up to "
-        "20 solutions, 6 s). Each instance: random.seed(seed), "
+        "20 solutions, 6 s), two count atoms over nested trees, start_symbol = quantified type with two-level "
+        "match expressions, numeric quantifiers. Each instance: random.seed(seed), "
         "solve() called until 10 solutions / StopIteration / 1.5 s user-CPU (probes: 2-6 s, up to 20). EVERY returned tree is checked in "
         "Coq (sol_check: shape_ok, wf_treeb, closedb, root label, satb of the original constraint) and by "
         "spec_sem.py; every prefix of the solution sequence is thereby checked. non-trivial = the instance "
